@@ -872,6 +872,12 @@ def _parse_source_for_lambda(
         code_start = _code_start(ast_source)
         span = getattr(lda, "_source_span", None)
         if code_start is not None and span is not None:
+            # Python counts the column in utf-8 bytes, the tokenizer in characters.
+            code_line, code_col = code_start
+            if 0 < code_line <= len(source):
+                as_bytes = source[code_line - 1].encode("utf-8")[:code_col]
+                code_col = len(as_bytes.decode("utf-8", errors="ignore"))
+            code_start = (code_line, code_col)
             (row_0, col_0), (row_1, col_1) = span
             if not ((lambda_line + row_0, col_0) <= code_start <= (lambda_line + row_1, col_1)):
                 raise ValueError(
